@@ -195,13 +195,18 @@ def parse_model_output(lines):
             res['C:' + p[1]] = [x == '1' for x in p[2:9]]
         elif ln.startswith('GB '):
             p = ln.split()
-            res['GB:' + p[1]] = [x == '1' for x in p[2:8]]
+            res['GB:' + p[1]] = [x == '1' for x in p[2:11]]
     return res
 
 
 def parse_real_line(s):
     """'O:Var:s:e;E:hex:s:e;F:s:e;...' -> dict(items, finals, flags, panic, traces)"""
-    r = dict(items=[], finals=[], bad_slice=False, panic=None, traces=[], raw=s, cbs=[])
+    r = dict(items=[], finals=[], bad_slice=False, panic=None, traces=[], raw=s, cbs=[], guarddiff=None)
+    if ' GUARDDIFF ' in s:
+        s, _, other = s.partition(' GUARDDIFF ')
+        r['guarddiff'] = other
+    if s.endswith('PANIC') and not s.endswith(':PANIC') and 'PANIC:' not in s:
+        r['panic'] = 'panic in guarded run'; s = s[:-5]
     if s.startswith('NODEF') or s.startswith('BADUTF8'):
         r['panic'] = s
         return r
